@@ -43,6 +43,7 @@ type Obligation struct {
 	Model   string
 	Output  string
 	Replay  *ReplayInfo
+	Confirmed bool // the violation was observed on the real code (bounded runs)
 	FirstIter []string
 	ResultVals []Val // symbolic results at the exit a post obligation belongs to
 	ClauseExpr Expr
